@@ -202,8 +202,13 @@ macro_rules! __dyn_collect {
     (@bounds [$($params:tt),*] [$($trait:tt)+] [$($bounds:tt)*]) => {
         $crate::__dyn_collect!(@emit [$($params),*] [$($trait)+] [$($bounds)*]);
     };
-    (@emit [$($params:tt),*] [$($trait:tt)+] [$($bounds:tt)*]) => {
-        unsafe impl<'gc, $($params),*> $crate::Collect<'gc> for $($trait)+
+    // The internal arms are as callable as the documented forms, so the arm that writes the impl
+    // does not rely on the checks above: it spells the `dyn` keyword itself, and the `@no_blocks`
+    // invocation next to the impl fails the build if any `{ ... }` group reached this point.
+    (@emit [$($params:tt),*] [dyn $($trait:tt)+] [$($bounds:tt)*]) => {
+        $crate::__dyn_collect!(@no_blocks $($trait)+ $($bounds)*);
+
+        unsafe impl<'gc, $($params),*> $crate::Collect<'gc> for dyn $($trait)+
         where
             $($bounds)*
         {
@@ -211,6 +216,13 @@ macro_rules! __dyn_collect {
                 $crate::collect::DynCollect::dyn_trace(self, cc);
             }
         }
+    };
+    (@no_blocks) => {};
+    (@no_blocks { $($block:tt)* } $($rest:tt)*) => {
+        compile_error!("`dyn_collect!` takes a trait object type and an optional where clause, not a `{ ... }` block");
+    };
+    (@no_blocks $next:tt $($rest:tt)*) => {
+        $crate::__dyn_collect!(@no_blocks $($rest)*);
     };
 }
 
